@@ -127,6 +127,23 @@ def gen_cases(tier, seed):
                         if fe == 'manager':
                             s.pop('front_end')
                         cases.append(s)
+    # a failure (or a cancel) after part of the file was written, with closing the temporary file failing as well (ENOSPC / EIO on
+    # the final flush): the temporary file still has to be removed, the previous content stays
+    for i in range(40 if quick else 400):
+        size = rng.choice([7, 13, 20, 27, 40])
+        nw = (size + 3) // 4
+        cfg = dict(multipart_threshold=16, multipart_chunksize=8, io_chunksize=4, max_request_concurrency=rng.choice([1, 2, 3]), num_download_attempts=1)
+        first = rng.choice([{'at': f't0/fs:write#{rng.randrange(1, nw + 1)}', 'phase': 'before', 'kind': 'oserror'},
+                            {'at': 't0/fs:rename#0', 'phase': 'before', 'kind': 'oserror'},
+                            {'at': f't0/s3:GetObject:{8 if size >= 16 else "all"}#0', 'phase': 'body', 'bytes': 2, 'kind': 'connreset'}, None])
+        sp = {'seed': rng.randrange(1 << 30), 'config': cfg, 'dirwatch': True, 'family': 'close-fails',
+              'transfers': [{'kind': 'download', 'dst': 'path', 'size': size, 'preexisting': rng.random() < 0.6}],
+              'plan': {'faults': [{'at': 't0/fs:close#0', 'phase': 'before', 'kind': 'oserror', 'tag': 'FAULT-close'}], 'delay_p': rng.choice([0.0, 0.3])}}
+        if first is None:
+            sp['plan']['cancel'] = {'at': f't0/fs:write#{rng.randrange(0, max(1, nw - 1))}', 'phase': 'after', 'how': 'future.cancel', 'from': 'event'}
+        else:
+            sp['plan']['faults'].insert(0, dict(first, tag='FAULT-first'))
+        cases.append(sp)
     rng.shuffle(cases)
     return cases
 
